@@ -57,6 +57,10 @@ def step (w : World) (line : String) : World × String :=
         | _, some c, _ => "BAD dead reference: component '" ++ c ++ "' after the fresh run"
         | none, none, none => "good"
         | none, none, some c => "BAD residue: component '" ++ c ++ "' of the output differs between recycled and fresh objects")
+  | ["cmpfn", a, b] =>
+    (w, match laterFunctionIndependent a b with
+        | none => "good"
+        | some c => "BAD later function depends on earlier functions of the same Compiler: " ++ c)
   | "heap" :: _ => (w, "ok")
   | ws =>
     match parseOp ws with
